@@ -1,4 +1,12 @@
 //! Kani harnesses for ntp-proto (external crate, path dependency on /repo/ntp-proto).
-#![allow(unused)]
+#![feature(allocator_api)]
+#![allow(unused, static_mut_refs)]
+#[path = "../../common/stubs.rs"]
+pub mod stubs;
+#[path = "../../common/util.rs"]
+#[macro_use]
+pub mod util;
 #[cfg(kani)]
 mod c32;
+#[cfg(kani)]
+mod probe;
